@@ -1,9 +1,150 @@
-(* C03 - placeholder while the proofs are being written *)
+(* C03 - lattice relations hold one row per key carrying the least fixed point.
+   Property theorems only; proofs are in LatEngine/{LatEnv,LatClause,LatMono,LatBase,LatHead,LatItems,LatScc,LatMain,LatKeys}.v.
+
+   Model: LatEngine/LatEval.v run_plan executes the plan dumped from the real macro for a program mixing
+   relations and lattices (rows of a lattice relation are mutable in the last column, indices hold row
+   numbers, a rule body reads the CURRENT value of a row); Engine/Validate.v validate and LatEngine/LatPlan.v
+   lat_plan_ok are the acceptance checks run on every dumped plan.  Specification: LatEngine/LatSem.v.
+
+   Reading guide.  V = the type of column values, ARBITRARY; I interprets the program's symbols over V.
+   islat r = relation r is declared `lattice`; the lattice of r is ANY structure (lle r, jm r) on V satisfying
+   lat_laws: lle r is a partial order on the set {a | lle r a a} of lattice elements, fst (jm r a b) is the
+   least upper bound of a and b, and join_mut's flag snd (jm r a b) may be false only if b <= a
+   (c03_shipped_lattices: C16 discharges this for every shipped lattice type).
+   tkey t / tval t = key columns / lattice column of a row;  tle r t t' = same key and value below (equality
+   for plain relations);  below DB f = some fact of DB is above f;  derives P DB f = f is the head of an
+   instance of a rule of P whose body is satisfied in DB (full matching, as in C01);  closedH P DB = every
+   derived fact is below DB;  directed J = two facts of J with the same key have a common upper bound in J.
+   monotone_program: the semantic predicate of LatSem.v (lattice variables occur only as the fresh last
+   argument of lattice clauses, in order-respecting conditions / generators / expressions, and in the
+   lattice column of heads).  shuffle / swap_oracle: the order in which every single index lookup iterates
+   (hash order) and the run-time len_estimate comparison of a reorderable join - ALL of them.
+   input_ok: input rows have their declared arity, lattice columns hold lattice elements, and a lattice
+   relation holds at most one input row per key. *)
 From Coq Require Import List ZArith Bool.
-From AV Require Import Engine.Core Engine.Eval Engine.Validate.
-From AV Require Import LatEngine.LatSyntax LatEngine.LatEval LatEngine.LatPlan LatEngine.LatVocab.
+From AV Require Import Engine.Core Engine.Eval Engine.Validate Engine.Naive.
+From AV Require Import Lattice.LatModel Lattice.LatLaws.
+From AV Require Import LatEngine.LatSyntax LatEngine.LatEval LatEngine.LatPlan LatEngine.LatSem LatEngine.LatBase LatEngine.LatHead.
+From AV Require Import LatEngine.LatKeys LatEngine.LatScc LatEngine.LatMain LatEngine.LatC16 LatEngine.LatVocab LatEngine.LatExample.
 Import ListNotations.
 
-Example c03_placeholder : lat_plan_ok (fun _ => false) [] [] = true.
-Proof. reflexivity. Qed.
-Print Assumptions c03_placeholder.
+(* exactly one row per key: after any run, no two rows of a lattice relation have the same key - for EVERY program
+   accepted by the validator (no monotonicity, no lattice law is needed for this part), every join_mut, every order
+   of iteration, given at most one input row per key *)
+Theorem c03_unique_key : forall (V : Type) (I : linterp V) islat jm shuffle swap_oracle arities P pl Rin fuel st,
+  veqb_ok I -> no_agg P = true -> validate arities P pl = true ->
+  (forall r, islat r = true -> NoDup (map tkey (Rin r))) ->
+  run_plan I islat jm shuffle swap_oracle fuel pl Rin = Some st ->
+  forall r, islat r = true -> NoDup (map tkey (l_rows st r)).
+Proof.
+  intros V I islat jm shuffle swap_oracle arities P pl Rin fuel st H1 H2 H3 H4 H5.
+  exact (lat_run_unique_key_all I H1 islat jm shuffle swap_oracle arities P H2 pl H3 fuel Rin st H4 H5).
+Qed.
+
+(* soundness: the result is below EVERY directed set of facts that is closed under the rules and above the input *)
+Theorem c03_sound : forall (V : Type) (I : linterp V) islat lle jm shuffle swap_oracle arities P pl Rin fuel st (J : db),
+  veqb_ok I -> (forall r, islat r = true -> lat_laws (lle r) (jm r)) ->
+  (forall n l x, In x (shuffle n l) <-> In x l) ->
+  arities_functional arities -> no_agg P = true -> monotone_program I islat lle P ->
+  validate arities P pl = true -> lat_plan_ok islat arities pl = true ->
+  input_ok I islat lle arities Rin ->
+  directed I islat lle J -> closedH I islat lle P J -> (forall r row, In row (Rin r) -> below I islat lle J (r, row)) ->
+  run_plan I islat jm shuffle swap_oracle fuel pl Rin = Some st ->
+  forall r row, In row (l_rows st r) -> below I islat lle J (r, row).
+Proof.
+  intros V I islat lle jm shuffle swap_oracle arities P pl Rin fuel st J H1 H2 H3 H4 H5 H6 H7 H8 H9 H10 H11 H12 H13.
+  exact (lat_run_sound I H1 islat lle jm H2 shuffle H3 swap_oracle arities H4 P H5 H6 pl H7 H8 Rin H9 J fuel st H10 H11 H12 H13).
+Qed.
+
+(* closedness at exit: every fact derivable from the final rows by one rule application is below the final rows,
+   i.e. every increase of a lattice value has been propagated through every rule *)
+Theorem c03_closed_at_exit : forall (V : Type) (I : linterp V) islat lle jm shuffle swap_oracle arities P pl Rin fuel st,
+  veqb_ok I -> (forall r, islat r = true -> lat_laws (lle r) (jm r)) ->
+  (forall n l x, In x (shuffle n l) <-> In x l) ->
+  arities_functional arities -> no_agg P = true -> monotone_program I islat lle P ->
+  validate arities P pl = true -> lat_plan_ok islat arities pl = true ->
+  input_ok I islat lle arities Rin ->
+  run_plan I islat jm shuffle swap_oracle fuel pl Rin = Some st ->
+  closedH I islat lle P (dbof (l_rows st)).
+Proof.
+  intros V I islat lle jm shuffle swap_oracle arities P pl Rin fuel st H1 H2 H3 H4 H5 H6 H7 H8 H9 H10.
+  exact (lat_run_closed I H1 islat lle jm H2 shuffle H3 swap_oracle arities H4 P H5 H6 pl H7 H8 Rin H9 fuel st H10).
+Qed.
+
+(* the input rows are still there, at the same row numbers, with the same keys and values that only went up *)
+Theorem c03_inputs_raised : forall (V : Type) (I : linterp V) islat lle jm shuffle swap_oracle arities P pl Rin fuel st,
+  veqb_ok I -> (forall r, islat r = true -> lat_laws (lle r) (jm r)) ->
+  (forall n l x, In x (shuffle n l) <-> In x l) ->
+  arities_functional arities -> no_agg P = true -> monotone_program I islat lle P ->
+  validate arities P pl = true -> lat_plan_ok islat arities pl = true ->
+  input_ok I islat lle arities Rin ->
+  run_plan I islat jm shuffle swap_oracle fuel pl Rin = Some st ->
+  forall r i row, nth_error (Rin r) i = Some row ->
+    exists row', nth_error (l_rows st r) i = Some row' /\ tle I islat lle r row row'.
+Proof.
+  intros V I islat lle jm shuffle swap_oracle arities P pl Rin fuel st H1 H2 H3 H4 H5 H6 H7 H8 H9 H10.
+  exact (lat_run_grows I H1 islat lle jm H2 shuffle H3 swap_oracle arities H4 P H5 H6 pl H7 H8 Rin H9 fuel st H10).
+Qed.
+
+(* together: the final rows are the LEAST fixed point - a directed set of facts (one row per key), closed under the
+   rules, above the input, and below every directed closed set above the input *)
+Theorem c03_least_fixed_point : forall (V : Type) (I : linterp V) islat lle jm shuffle swap_oracle arities P pl Rin fuel st,
+  veqb_ok I -> (forall r, islat r = true -> lat_laws (lle r) (jm r)) ->
+  (forall n l x, In x (shuffle n l) <-> In x l) ->
+  arities_functional arities -> no_agg P = true -> monotone_program I islat lle P ->
+  validate arities P pl = true -> lat_plan_ok islat arities pl = true ->
+  input_ok I islat lle arities Rin ->
+  run_plan I islat jm shuffle swap_oracle fuel pl Rin = Some st ->
+  let F := dbof (l_rows st) in
+  directed I islat lle F /\ closedH I islat lle P F /\ dble I islat lle (dbof Rin) F /\
+  forall J : db, directed I islat lle J -> closedH I islat lle P J -> dble I islat lle (dbof Rin) J -> dble I islat lle F J.
+Proof.
+  intros V I islat lle jm shuffle swap_oracle arities P pl Rin fuel st H1 H2 H3 H4 H5 H6 H7 H8 H9 H10.
+  exact (lat_run_least_fixed_point I H1 islat lle jm H2 shuffle H3 swap_oracle arities H4 P H5 H6 pl H7 H8 Rin H9 fuel st H10).
+Qed.
+
+(* soundness holds at EVERY intermediate state (what a run stopped by a deadline leaves behind: C14): after any number
+   of completed SCCs and any number of evaluations of the rules of the next SCC, the rows are below every directed
+   closed set above the input *)
+Theorem c03_sound_at_every_iteration : forall (V : Type) (I : linterp V) islat lle jm shuffle swap_oracle arities P pl Rin (J : db) fuel pre sc rest st R',
+  veqb_ok I -> (forall r, islat r = true -> lat_laws (lle r) (jm r)) ->
+  (forall n l x, In x (shuffle n l) <-> In x l) ->
+  arities_functional arities -> no_agg P = true -> monotone_program I islat lle P ->
+  validate arities P pl = true -> lat_plan_ok islat arities pl = true ->
+  input_ok I islat lle arities Rin ->
+  directed I islat lle J -> closedH I islat lle P J -> (forall r row, In row (Rin r) -> below I islat lle J (r, row)) ->
+  pl = pre ++ sc :: rest ->
+  run_sccs I islat jm shuffle swap_oracle fuel pre (update_indices Rin) = Some st ->
+  loop_reach I islat jm shuffle swap_oracle sc (l_stored st) (fun _ => []) (fun r => if is_dyn (s_dyn sc) r then l_stored st r else [])
+             (l_rows st) (l_tick st) R' ->
+  forall r row, In row (R' r) -> below I islat lle J (r, row).
+Proof.
+  intros V I islat lle jm shuffle swap_oracle arities P pl Rin J fuel pre sc rest st R' H1 H2 H3 H4 H5 H6 H7 H8 H9 H10 H11 H12 H13 H14 H15.
+  exact (lat_sound_intermediate I H1 islat lle jm H2 shuffle H3 swap_oracle arities H4 P H5 H6 pl H7 H8 Rin H9 J fuel pre sc rest st R' H10 H11 H12 H13 H14 H15).
+Qed.
+
+(* the lattice hypothesis is discharged by C16 for every shipped lattice type (every nesting depth) *)
+Theorem c03_shipped_lattices : forall t, wf_lty t = true -> lat_laws (ok_le (denote t)) (jm (denote t)).
+Proof. exact shipped_lattices_ok. Qed.
+(* and a lattice on a type T extends to the value universe Z + T (plain columns left, lattice values right) *)
+Theorem c03_lattice_in_universe : forall (T : Type) (le : T -> T -> Prop) jmT, lat_laws le jmT -> lat_laws (sum_le le) (sum_jm jmT).
+Proof. intros T le jmT. exact (sum_lat_laws le jmT). Qed.
+
+(* non-vacuity: all-pairs shortest path over Dual<u32> with a downstream plain relation, plan dumped from the real
+   macro (the lattice is dynamic in two SCCs, the recursive rule is a reorderable simple join): the hypotheses hold *)
+Example c03_example_hypotheses :
+  veqb_ok lv_interp /\ (forall r, sp_islat r = true -> lat_laws (sp_lle r) (sp_jm r)) /\
+  (forall n l x, In x (lv_shuffle n l) <-> In x l) /\ arities_functional sp_arities /\ no_agg sp_prog = true /\
+  monotone_program lv_interp sp_islat sp_lle sp_prog /\
+  validate sp_arities sp_prog sp_plan = true /\ lat_plan_ok sp_islat sp_arities sp_plan = true.
+Proof.
+  split; [exact sp_eq|]. split; [exact sp_laws|]. split; [exact sp_shuffle_ok|]. split; [exact sp_arities_functional|].
+  destruct sp_checks as [A [B C]]. split; [exact C|]. split; [exact sp_monotone|]. split; [exact A | exact B].
+Qed.
+(* ... and the model runs: 25 distances, the distance 0 -> 4 improved from 8 to 4, 20 pairs within distance 4 *)
+Example c03_example_runs : exists rows, sp_result = Some (rows, 20%nat) /\ length rows = 25%nat /\ In [0; 4; 4]%Z rows /\ In [0; 0; 5]%Z rows.
+Proof. exact sp_runs. Qed.
+
+Print Assumptions c03_unique_key. Print Assumptions c03_sound. Print Assumptions c03_closed_at_exit.
+Print Assumptions c03_least_fixed_point. Print Assumptions c03_sound_at_every_iteration. Print Assumptions c03_inputs_raised. Print Assumptions c03_shipped_lattices. Print Assumptions c03_lattice_in_universe.
+Print Assumptions c03_example_hypotheses. Print Assumptions c03_example_runs.
